@@ -168,10 +168,50 @@ def split_rejoin_probe(ctx, mon, v, rng):
             ctx.nontriv(('sr', o.key()))
 
 
+def seam_workshop_duplicates(ctx, mon, rng, L):
+    """the seam at which equal settings are carried over, with *equal-valued duplicates* in the stack: the left operand
+    is a slice whose settings (x, y, x of one effect group) stop together at its end - in an order that differs from
+    the order they take effect in -, the right operand starts with the same values in the left's effect order and
+    lets them end at different characters.  Which of two equal settings is carried over then matters."""
+    g = rng.choice(sorted(GROUP_CODES))
+    ap, cl = GROUP_CODES[g]
+    x = rng.choice(ap)
+    y = rng.choice([c for c in ap if c != x] + [cl])
+    pat = rng.choice([[x, y, x], [x, x, y], [y, x, x], [x, x], [x, y, x, y], [x, cl, x]])
+    with mon.quiet():
+        k = rng.choice([2, 3, 4])
+        a = L.AnsiString('abcdef')
+        for c in pat:
+            st = rng.choice([0, 0, 1, k - 1])
+            a.apply_formatting('[' + c, st, rng.choice([k, k, k + 1, 6]), topmost=rng.random() < 0.75)
+        left = a[0:k]
+        order = [str(s) for s in left.ansi_settings_at(k - 1)]
+        if rng.random() < 0.25:
+            left = L.AnsiStr(left)
+        right = L.AnsiString('xyz')
+        for c in order:
+            right.apply_formatting('[' + c, 0, rng.choice([1, 2, 3]), topmost=rng.random() < 0.85)
+        if rng.random() < 0.25:
+            right = L.AnsiStr(right)
+    ctx.sig('seam-workshop:duplicates')
+    try:
+        r = rng.random()
+        if r < 0.5:
+            left + right
+        elif r < 0.75 and isinstance(left, L.AnsiString):
+            left += right
+        else:
+            (L.AnsiString if rng.random() < 0.5 else L.AnsiStr).join(left, right, rng.choice(['', 'q']))
+    except Exception:
+        pass
+
+
 def seam_workshop(ctx, mon, rng, L):
     """equal / reordered / prefix seams built on purpose: the left operand is a slice whose settings stop in an
     order different from the order they take effect in, the right operand starts with equal-valued settings in
     some permutation"""
+    if rng.random() < 0.4:
+        return seam_workshop_duplicates(ctx, mon, rng, L)
     groups = rng.sample(sorted(GROUP_CODES), rng.choice([1, 1, 2]))
     pool = []
     for g in groups:
